@@ -53,4 +53,8 @@ def dayStepOK (n : Int) (a b : Date) : Bool :=
 def dayStepsOK (n : Int) (steps : List Step) : Bool :=
   steps.all fun st => dayStepOK n st.s st.e.addDay
 
+/-- C07 ("n months starting on the first of a month"): the start of the calendar month after a date
+    that is the first of a month. -/
+def nextMonthStart (t : Date) : Date := if t.m = 12 then ⟨t.y + 1, 1, 1⟩ else ⟨t.y, t.m + 1, 1⟩
+
 end Pops
